@@ -308,11 +308,22 @@ func encSliceRoomy(b mp4.Box, capacity int) (r encResult) {
 		if capacity <= 0 {
 			capacity = int(b.Size()) + 64
 		}
-		sw := bits.NewFixedSliceWriter(capacity)
+		// the caller's buffer is one it has used before: not zeroed (reserved fields must be WRITTEN by the encoder)
+		dirty := bytes.Repeat([]byte{0xa5}, capacity)
+		sw := bits.NewFixedSliceWriterFromSlice(dirty)
 		r.err = b.EncodeSW(sw)
 		r.out = sw.Bytes()
 	})
 	return
+}
+
+// dirtyWriter: a slice writer over a buffer the caller has used before (every byte 0xa5): an encoder must write
+// every byte it accounts for, reserved and zero fields included
+func dirtyWriter(n int) *bits.FixedSliceWriter {
+	if n < 0 {
+		n = 0
+	}
+	return bits.NewFixedSliceWriterFromSlice(bytes.Repeat([]byte{0xa5}, n))
 }
 
 func infoOf(b mp4.Box) string {
@@ -450,6 +461,9 @@ func checkBoxBytes(c *Ctx, which string, bs []byte, origin string) boxVerdict {
 			fail("C02", "size-sw", "EncodeSW reports success but bytes written != Size()", fmt.Sprintf("Size()=%d written=%d", sa, len(eR.out)), "")
 		} else if msg := checkSizeFields(eR.out); msg != "" {
 			fail("C02", "size-field-sw", "a header size field written by EncodeSW does not equal the length of its box: "+msg, hx(eR.out), "")
+		} else if !bytes.Equal(eR.out, eW.out) {
+			fail("C02", "encode-twice-sw", "EncodeSW into a caller's used (non-zero) buffer yields other bytes than the first encoding of the same structure", hx(eR.out), hx(eW.out))
+			fail("C03", "encoders-bytes-reused-buffer", "Encode and EncodeSW (into a caller's used, non-zero buffer) produce different bytes", hx(eW.out), hx(eR.out))
 		}
 	}
 	// twice, Info in between
